@@ -11,6 +11,7 @@ from classy_blocks.construct.operations.revolve import Revolve
 from classy_blocks.construct.shapes.round import RoundHollowShape, RoundSolidShape
 from classy_blocks.types import OrientType, PointType
 from classy_blocks.util import functions as f
+from classy_blocks.util.constants import TOL
 
 
 class ExtrudedRing(RoundHollowShape):
@@ -80,7 +81,7 @@ class ExtrudedRing(RoundHollowShape):
 
         sketch_1 = source.sketch_1
         sketch_2 = source.sketch_2
-        if inner_radius > sketch_1.inner_radius:
+        if sketch_1.inner_radius - inner_radius < TOL:
             raise ExtrudedRingCreationError(
                 "Unable to perform `contract()` operation: new inner radius must be smaller than source's",
                 f"Inner radius: {inner_radius}, sketch inner radius: {sketch_1.inner_radius}",
